@@ -88,6 +88,25 @@ func sanitize(c Case) Case {
 	if len(c.SrcChunks) == 0 {
 		c.SrcChunks = []int{8}
 	}
+	// every op of a role gets its own buffer length (k-th op: 32*m + k + 1): the harness
+	// recognises an op at the source/sink by that length, whatever buffer the feeder passes on
+	c.Actors = append([]Actor{}, c.Actors...)
+	k := map[string]int{}
+	uniq := func(role string, sizes []int) []int {
+		out := make([]int, len(sizes))
+		for i, s := range sizes {
+			if s < 1 {
+				s = 1
+			}
+			out[i] = ((s-1)/32%8)*32 + k[role]%32 + 1
+			k[role]++
+		}
+		return out
+	}
+	for i, a := range c.Actors {
+		a.Pre, a.Race, a.Post = uniq(a.Role, a.Pre), uniq(a.Role, a.Race), uniq(a.Role, a.Post)
+		c.Actors[i] = a
+	}
 	racers := 0
 	for _, a := range c.Actors {
 		if a.Role == c.Trigger.Role && len(a.Race) > 0 {
@@ -284,7 +303,7 @@ type run struct {
 	mu         sync.Mutex
 	counters   map[string]int
 	trigOnce   bool
-	heldAt     map[uintptr]string
+	heldAt     map[string]string // role+size -> do: point
 	parks      int
 	ops        []*opRec
 	closeCall  int64
@@ -361,7 +380,7 @@ func (r *run) hook(role, point string, b []byte) {
 	}
 	if strings.HasPrefix(point, "do:") && isClosed(r.evReturned) {
 		r.mu.Lock()
-		r.heldAt[bufID(b)] = point
+		r.heldAt[fmt.Sprint(role, len(b))] = point
 		r.mu.Unlock()
 	}
 }
@@ -412,8 +431,8 @@ func wgChan(wg *sync.WaitGroup) chan struct{} {
 }
 
 type info struct {
-	pending, after, heldN, parks, raceEOF, raceGenuine, lateDelivery int
-	runLeak                                                          bool
+	pending, after, heldN, parks, raceEOF, raceGenuine, lateDelivery, retained int
+	runLeak                                                                    bool
 }
 
 func stacks() string {
@@ -426,7 +445,7 @@ func stacks() string {
 func execute(c Case) (v *vk.Verdict, in info, stall bool) {
 	c = sanitize(c)
 	r := &run{c: c, evRace: make(chan struct{}), evCalled: make(chan struct{}), evReturned: make(chan struct{}), evEnd: make(chan struct{}),
-		trig: make(chan struct{}), runExit: make(chan struct{}, 4), counters: map[string]int{}, heldAt: map[uintptr]string{}}
+		trig: make(chan struct{}), runExit: make(chan struct{}, 4), counters: map[string]int{}, heldAt: map[string]string{}}
 	preR, preW := 0, 0
 	for _, a := range c.Actors {
 		if a.Role != "r" && a.Role != "w" {
@@ -568,13 +587,14 @@ func (r *run) judge(in *info) *vk.Verdict {
 	defer r.mu.Unlock()
 	closeCall, closeRet := atomic.LoadInt64(&r.closeCall), atomic.LoadInt64(&r.closeRet)
 	in.parks = r.parks
-	byBuf := map[uintptr]*opRec{}
+	byBuf := map[string]*opRec{} // ops are identified by role and (unique) buffer length
 	for _, o := range r.ops {
-		if byBuf[o.id] != nil {
-			return vk.Bad("harness", "two ops share a buffer address")
+		key := fmt.Sprint(o.role, o.size)
+		if byBuf[key] != nil {
+			return vk.Bad("harness", "two %s ops share the length %d", o.role, o.size)
 		}
-		byBuf[o.id] = o
-		o.held = r.heldAt[o.id]
+		byBuf[key] = o
+		o.held = r.heldAt[key]
 	}
 	for _, e := range []*endpoint{r.src, r.sink} {
 		e.mu.Lock()
@@ -589,7 +609,7 @@ func (r *run) judge(in *info) *vk.Verdict {
 			e = r.sink
 		}
 		for _, c := range e.calls {
-			if c.buf == o.id {
+			if c.size == o.size {
 				cs = append(cs, c)
 			}
 		}
@@ -597,6 +617,20 @@ func (r *run) judge(in *info) *vk.Verdict {
 	}
 	ops := append([]*opRec{}, r.ops...)
 	sort.Slice(ops, func(i, j int) bool { return ops[i].start < ops[j].start })
+	var retained *vk.Verdict
+	for _, o := range ops {
+		for _, c := range callsOf(o) {
+			if c.buf == o.id && (c.end == 0 || c.end > o.end) && retained == nil {
+				when := fmt.Sprintf("returned at seq %d", c.end)
+				if c.end == 0 {
+					when = "never returned"
+				}
+				retained = vk.Bad("buffer-used-after-return", "%s returned (%d, %v) at seq %d, but the feeder goroutine went on using the caller's buffer: the %s call with that very buffer started at seq %d and %s (io.Reader/io.Writer: implementations must not retain p)",
+					opName(o), o.n, o.err, o.end, r.endOf(o).name(), c.start, when)
+				in.retained++
+			}
+		}
+	}
 	for _, o := range ops {
 		cs := callsOf(o)
 		isEOF := o.n == 0 && o.err == io.EOF
@@ -659,8 +693,8 @@ func (r *run) judge(in *info) *vk.Verdict {
 	// the sink's view: whole unmodified chunks, per writer in order, no gap
 	next := map[int]int{}
 	for _, c := range r.sink.calls {
-		o := byBuf[c.buf]
-		if o == nil || o.role != "w" {
+		o := byBuf[fmt.Sprint("w", c.size)]
+		if o == nil {
 			return vk.Bad("sink-unknown-buffer", "the sink was called with a buffer (%d bytes) that no Write passed in", c.size)
 		}
 		if c.data != nil || c.err == nil {
@@ -690,7 +724,7 @@ func (r *run) judge(in *info) *vk.Verdict {
 		}
 		last[o.actor] = c.off + o.n
 	}
-	return nil
+	return retained
 }
 
 func (e *endpoint) name() string {
@@ -728,7 +762,7 @@ var oracle = vk.Register("history", func(c Case) *vk.Verdict { v, _ := check(c);
 
 func genCase(t *rapid.T) Case {
 	var c Case
-	sizes := rapid.SampledFrom([]int{1, 1, 2, 3, 5, 8, 16, 64})
+	sizes := rapid.SampledFrom([]int{1, 1, 33, 65, 129, 225})
 	nr := rapid.IntRange(0, 3).Draw(t, "readers")
 	nw := rapid.IntRange(0, 3).Draw(t, "writers")
 	if nr+nw == 0 {
